@@ -66,6 +66,25 @@ CHECKS = {
           'max requests) are checked in every state.',
           'stub connections fail a request sent on a closed connection, as both transports do; behaviour of requests arriving after the '
           'pool closed is not part of the statement', '3/C07'),
+  'C01': ('S', 'model_checking',
+          'stateless deviation-bounded schedule exploration (CHESS-style, <=3 quick / <=4 thorough deviations) of the real Thrift and ThriftMux clients over simulated sockets on a virtual-time gevent loop',
+          'Nine scenarios (1-2 endpoints, 2-3 calls, calls issued while opening, slow connect, pool max 1, membership changes) x both '
+          'stacks; every schedule with at most d deviations is executed on the real client built by the public builders. Monitors after every '
+          'callback catch a result that changes after completion; lateness is checked at every quiescent point against t+T rounded up to '
+          'the tick; TimeoutError before t+T is checked on completion.',
+          'gevent loop contract; one virtual clock; off-tick deadlines; faults offered after I/O activity on the connection', '3/C01'),
+  'C02': ('S', 'model_checking',
+          'stateless deviation-bounded schedule exploration of the real clients with unique arguments and an echoing peer',
+          'Serial (pooled connection reused after timeouts) and multiplexed (replies in any order, late, lost, split) scenarios; every '
+          'value delivered must be the echo of the call\'s own argument and the server must decode exactly what callers passed.',
+          'unique argument per call; peers decode with the generated Processor / an independent mux codec', '3/C02'),
+  'C12': ('S', 'model_checking',
+          'stateless deviation-bounded schedule exploration with the deadline placed at every hop of the request path',
+          'Scenarios put the deadline while waiting for the open, during a slow connect, in the pool queue, while the pool creates a '
+          'connection, in the mux send queue under back-pressure and on the wire; after the caller saw TimeoutError no later client write '
+          'call may contain its request, and a written-but-unanswered mux request on an open connection must be followed by a Tdiscarded '
+          'naming its tag.',
+          'transmission = the client\'s write call (bytes handed to the socket); off-tick deadlines', '3/C12'),
 }
 
 NOT_BUILT = 'check not built yet in this session (planned, see DESIGN.md section 3)'
